@@ -106,9 +106,19 @@ def files_of(root, rng):
     own = []
     for r in root["recipes"]:
         (imported if rng.random() < 0.25 and r["name"] != "noop" else own).append(r)
+    deeper = []
     if imported:
         text += "import 'imp.just'\n"
-        files["imp.just"] = "".join(recipe_text(r) for r in imported)
+        # part of them one import further down; the inner import statement above or below the file's own recipes
+        deeper = [r for r in imported if rng.random() < 0.5]
+        imported = [r for r in imported if r not in deeper]
+        body = "".join(recipe_text(r) for r in imported)
+        if deeper:
+            files["imp2.just"] = "".join(recipe_text(r) for r in deeper)
+            body = "import 'imp2.just'\n\n" + body if rng.random() < 0.5 else body + "\nimport 'imp2.just'\n"
+        files["imp.just"] = body
+    # `--unsorted`: a file's own recipes as written, then those of the files it imports, file by file
+    root["_order"] = [r["name"] for r in own + imported + deeper]
     text += "\n"
     for a in root["aliases"]:
         if a["private_attr"]:
@@ -389,8 +399,14 @@ def run(report):
                 if "::" in x and x.split("::")[0] not in mods_summary:
                     mods_summary.append(x.split("::")[0])
             mods_list = [m_ for m_ in r["list_submodules_unsorted_modules"] if m_ in mods_summary]
+            want_order = [n for n in root.get("_order", []) if n in want["summary"]]
+            got_order = [x for x in r["summary_unsorted"] if "::" not in x]
             if r["choose_raw"] != from_summary:
                 bad = ("choose-order", r["choose_raw"], from_summary)
+            elif got_order != want_order:
+                bad = ("summary-unsorted-order", got_order, want_order)
+            elif not any(x["groups"] for x in root["recipes"]) and r["list_unsorted"] != want_order:
+                bad = ("list-unsorted-order", r["list_unsorted"], want_order)
             elif mods_list != mods_summary:
                 bad = ("module-order-unsorted", mods_summary, mods_list)
         if bad:
@@ -492,7 +508,7 @@ def run(report):
     report.coverage.update({
         "evaluations": stats["commands"],
         "distinct_nontrivial": len(distinct),
-        "rule": "random justfiles: public / [private] / underscore recipes, OS attributes (enabled and disabled on linux, single and combined), groups, doc comments and [doc] attributes (escapes, triple quotes, suppression), parameters of every kind (exported, escaped defaults), an import, up to two submodules each possibly with a nested submodule, public and private aliases to own and to submodule recipes; --summary, --list (sorted/unsorted), JSON dump, --choose candidates, --groups, the groups / documentation / parameters displayed vs declared (root and `--list MODULE`), and for every name --show vs what `just NAME` runs; distinct = distinct file sets",
+        "rule": "random justfiles: public / [private] / underscore recipes, OS attributes (enabled and disabled on linux, single and combined), groups, doc comments and [doc] attributes (escapes, triple quotes, suppression), parameters of every kind (exported, escaped defaults), an import that itself imports (source order of --unsorted across the three files), up to two submodules each possibly with a nested submodule, public and private aliases to own and to submodule recipes; --summary, --list (sorted/unsorted), JSON dump, --choose candidates, --groups, the groups / documentation / parameters displayed vs declared (root and `--list MODULE`), and for every name --show vs what `just NAME` runs; distinct = distinct file sets",
         "samples": samples,
         "traces_validated_against_impl": n,
         "stats": stats,
